@@ -72,6 +72,8 @@ OBS_Q3 = R("obscure_q3", "obscure_q3.cfg", expect_ops=["compress_subject", "unco
 DEEP_S = R("deep_s", "deep_s.cfg", rounds=1, simulate="num=25", depth=10, workers=4, expect_ops=["add_salt", "add_signature", "elide_set", "encrypt_subject", "compress_subject"])
 DEEP_S_T = dict(DEEP_S, name="deep_s_t", simulate="num=400", rounds=2)
 
+FORGE_Q = R("forge_q", "forge_q.cfg", expect_ops=["forge_encrypted", "forge_compressed", "tamper", "corrupt", "decrypt_subject", "uncompress_subject"], expect_out=["decrypt_subject:err", "uncompress_subject:err", "uncompress_subject:ok"])
+
 PLAN = {
     "C01": dict(
         rule="every transition TLC explores in the bounded machine (all call sequences up to the depth bound over the listed action families, 2 registers, atoms a1,a2 + known value 1, plus every clear shape of <= 5 elements as input to the obscuring calls) is executed against the real library in several concretisation rounds (atoms -> typed values of every leaf CBOR type); the digest of the result and of every element of it must equal SHA-256 evaluated from the specification's digest term. non-trivial = distinct (call, expected result) pairs whose result has >= 2 elements or is an error",
@@ -102,12 +104,12 @@ PLAN = {
     ),
     "C08": dict(
         rule="every shape (<= 4 elements, nodes of 5) x keys {k1,k2} x encrypt_subject / encrypt / elide_set(Encrypt), then a key-holding adversary (forge_encrypted: content vs declared digest mismatch for every register pair; tamper: ciphertext / nonce / tag / aad, random bit per round) or add_assertion / second encryption, then decrypt_subject / decrypt with each key",
-        quick=[ENCRYPT_Q],
+        quick=[ENCRYPT_Q, FORGE_Q],
         thorough=[ENCRYPT_Q, dict(ENCRYPT_Q, name="encrypt_t", cfg="encrypt_t.cfg", rounds=3)],
     ),
     "C13": dict(
         rule="every shape x {compress, compress_subject, elide_set(Compress)} x {uncompress, uncompress_subject} chains, compressed elements as subject of add_assertion, forged (content, declared digest) pairs for every register pair, corrupt payloads (data bit, checksum, truncation)",
-        quick=[COMPRESS_Q],
+        quick=[COMPRESS_Q, FORGE_Q],
         thorough=[COMPRESS_Q, dict(COMPRESS_Q, name="compress_t", cfg="compress_t.cfg", rounds=3)],
     ),
     "C14": dict(
